@@ -531,6 +531,116 @@ fn run(job: &Job, full: bool, out: &mut JobOut) {
     }
 }
 
+/// Aliasing: arguments that are views into one allocation (axes that start at the same element with
+/// different strides; an axis that is a column of the data; queries that are the axes themselves)
+/// against the same call on owned copies.
+fn run_alias(kind: usize, m: usize, out: &mut JobOut) {
+    use ndarray::{s, Array2};
+    let xv: Vec<f64> = (0..m).map(|i| [0.0, 0.1, 0.5, 1.7, 2.0, 3.3][i]).collect();
+    let yv: Vec<f64> = (0..m).map(|i| [0.0, 0.3, 0.9, 2.5, 3.0, 3.1][i]).collect();
+    // shared storage: x and y both start at the element holding 0.0
+    let table = {
+        let mut t = Array2::<f64>::from_elem((m, m), 55.0);
+        for i in 0..m {
+            t[[i, 0]] = xv[i];
+            t[[0, i]] = yv[i];
+        }
+        t
+    };
+    let vec2 = {
+        let mut v = vec![0.0; 2 * m - 1];
+        for i in 0..m {
+            v[m - 1 + i] = xv[i];
+            v[m - 1 - i] = yv[i];
+        }
+        Array1::from(v)
+    };
+    let (x, y) = match kind {
+        0 => (table.column(0), table.row(0)),
+        1 => (vec2.slice(s![m - 1..]), vec2.slice(s![..m;-1])),
+        _ => (table.column(0), table.column(0)),
+    };
+    let yv: Vec<f64> = y.to_vec();
+    let (xo, yo) = (x.to_owned(), y.to_owned());
+    let data = Array2::from_shape_fn((m, m), |(i, j)| ((i * 7 + j * 3) as f64 * 0.37).sin() * 3.0 + (i * m + j) as f64 * 0.125);
+    let key = format!("alias:kind{kind}:m{m}");
+    let what = ["x = table.column(0), y = table.row(0)", "x = v[m-1..], y = v[..m;-1]", "x and y the same view"][kind];
+    let alias = catch(|| Interp2DBuilder::new(data.view()).x(x).y(y).build());
+    let owned = Interp2DBuilder::new(data.view()).x(xo.view()).y(yo.view()).build();
+    let (Ok(Ok(alias)), Ok(owned)) = (alias, owned) else {
+        out.violate(format!("{key}:build"), format!("build with aliasing axes ({what}) failed although the axes {xv:?}, {yv:?} are valid"), Json::str(what));
+        return;
+    };
+    out.states += 1;
+    // queries: every pair over knots and points between them (the diagonal included)
+    let mut pts: Vec<f64> = vec![];
+    for v in xv.iter().chain(yv.iter()) {
+        pts.push(*v);
+    }
+    for w in xv.windows(2).chain(yv.windows(2)) {
+        pts.push(w[0] + (w[1] - w[0]) * 0.375);
+    }
+    pts.sort_by(|a, b| a.partial_cmp(b).unwrap());
+    pts.dedup();
+    let hi = xv[m - 1].min(yv[m - 1]);
+    pts.retain(|p| *p <= hi);
+    let mut cmp = |name: String, a: Obs, b: Obs, out: &mut JobOut| {
+        out.evals += 1;
+        out.nontrivial += 1;
+        out.transitions += 1;
+        let ok = a == b;
+        out.outcome(if ok { "alias:bit-identical" } else { "alias:differs" });
+        if !ok {
+            out.violate(format!("{key}:{name}"), format!("{name} on an interpolator whose axes alias each other ({what}; x = {xv:?}, y = {yv:?}) differs from the same call on owned copies: {a:?} instead of {b:?}"), Json::str(what));
+        }
+    };
+    let o = |r: Result<Result<f64, InterpolateError>, String>| match r {
+        Ok(Ok(v)) => Obs::Ok(vec![], vec![v.to_bits()]),
+        Ok(Err(e)) => Obs::Err(format!("{e:?}")),
+        Err(p) => Obs::Panic(p),
+    };
+    for &qx in &pts {
+        for &qy in &pts {
+            cmp(format!("interp_scalar({qx},{qy})"), o(catch(|| alias.interp_scalar(qx, qy))), o(catch(|| owned.interp_scalar(qx, qy))), out);
+        }
+    }
+    let oa = |r: Result<Result<Array1<f64>, InterpolateError>, String>| match r {
+        Ok(Ok(v)) => obs_arr(&v.into_dyn()),
+        Ok(Err(e)) => Obs::Err(format!("{e:?}")),
+        Err(p) => Obs::Panic(p),
+    };
+    // batches: the diagonal, the same array for xs and ys, and the axes themselves as queries
+    let diag = Array1::from(pts.clone());
+    cmp("interp_array(diag,diag)".into(), oa(catch(|| alias.interp_array(&diag, &diag))), oa(catch(|| owned.interp_array(&diag, &diag))), out);
+    let rev = diag.slice(s![..;-1]);
+    cmp("interp_array(diag,diag reversed view)".into(), oa(catch(|| alias.interp_array(&diag, &rev))), oa(catch(|| owned.interp_array(&diag, &rev))), out);
+    {
+        let n = x.len().min(y.len());
+        let (qx, qy) = (x.slice(s![..n]), y.slice(s![..n]));
+        let (qxo, qyo) = (qx.to_owned(), qy.to_owned());
+        let clip = |a: &Array1<f64>| a.mapv(|v| v.min(hi));
+        let (cx, cy) = (clip(&qxo), clip(&qyo));
+        if qxo == cx && qyo == cy {
+            cmp("interp_array(x axis view, y axis view)".into(), oa(catch(|| alias.interp_array(&qx, &qy))), oa(catch(|| owned.interp_array(&qxo, &qyo))), out);
+        }
+    }
+    // 1-D: the axis is a column of the data
+    let lin_a = catch(|| Interp1DBuilder::new(table.view()).x(table.column(0)).build());
+    let lin_o = Interp1DBuilder::new(table.to_owned()).x(table.column(0).to_owned()).build();
+    if let (Ok(Ok(a)), Ok(b)) = (lin_a, lin_o) {
+        let q = Array1::from(pts.iter().cloned().filter(|p| *p <= xv[m - 1]).collect::<Vec<_>>());
+        let oa2 = |r: Result<Result<Array2<f64>, InterpolateError>, String>| match r {
+            Ok(Ok(v)) => obs_arr(&v.into_dyn()),
+            Ok(Err(e)) => Obs::Err(format!("{e:?}")),
+            Err(p) => Obs::Panic(p),
+        };
+        cmp("Interp1D(x = data.column(0)).interp_array".into(), oa2(catch(|| a.interp_array(&q))), oa2(catch(|| b.interp_array(&q))), out);
+        cmp("Interp1D(x = data.column(0)).interp_array(x view)".into(), oa2(catch(|| a.interp_array(&table.column(0)))), oa2(catch(|| b.interp_array(&xo))), out);
+    } else {
+        out.violate(format!("{key}:build1d"), "Interp1D with x = data.column(0) failed to build", Json::str(what));
+    }
+}
+
 fn body(ctx: &Ctx) -> (Summary, Meta) {
     let full = !ctx.quick();
     let mut jobs = vec![];
@@ -566,13 +676,19 @@ fn body(ctx: &Ctx) -> (Summary, Meta) {
         }
     }
     let njobs = jobs.len();
-    let sum = run_jobs(ctx, "layouts", &jobs, |j| j.key(), |j| {
+    let mut sum = run_jobs(ctx, "layouts", &jobs, |j| j.key(), |j| {
         let mut out = JobOut::default();
         run(j, full, &mut out);
         out
     });
+    let alias_jobs: Vec<(usize, usize)> = (0..3).flat_map(|k| (2..=6).map(move |m| (k, m))).collect();
+    sum.merge(run_jobs(ctx, "aliasing", &alias_jobs, |j| format!("alias:kind{}:m{}", j.0, j.1), |j| {
+        let mut out = JobOut::default();
+        run_alias(j.0, j.1, &mut out);
+        out
+    }));
     let meta = Meta {
-        rule: "for every (strategy, data rank 1..4, query rank 0..3 / dynamic, static-or-dynamic instantiation) the four call forms {interp, interp_into, interp_array, interp_array_into} are run once with all arguments as owned C-order arrays (reference) and then with each argument (data, x, y, query xs, query ys, output buffer, boundary array) independently in every layout of the alphabet {F order, every 2nd (3rd) element of a larger poisoned array, reversed along an axis (negative stride), permuted axes storage; buffers also as reversed windows}, and with the full product over a 3-layout core {C, F, reversed+strided} of (data, x, query, buffer). For Linear every job is repeated with a query holding two different out-of-range values: the error (which names the first offending value in logical order) and the partially filled buffer must not depend on the layouts either. Oracle: bit-identical to the reference; correctly shaped buffers accepted; memory outside strided buffers untouched. Non-trivial = at least one argument not in C order.".into(),
+        rule: "for every (strategy, data rank 1..4, query rank 0..3 / dynamic, static-or-dynamic instantiation) the four call forms {interp, interp_into, interp_array, interp_array_into} are run once with all arguments as owned C-order arrays (reference) and then with each argument (data, x, y, query xs, query ys, output buffer, boundary array) independently in every layout of the alphabet {F order, every 2nd (3rd) element of a larger poisoned array, reversed along an axis (negative stride), permuted axes storage; buffers also as reversed windows}, and with the full product over a 3-layout core {C, F, reversed+strided} of (data, x, query, buffer). For Linear every job is repeated with a query holding two different out-of-range values: the error (which names the first offending value in logical order) and the partially filled buffer must not depend on the layouts either. Oracle: bit-identical to the reference; correctly shaped buffers accepted; memory outside strided buffers untouched. Non-trivial = at least one argument not in C order. Aliasing phase: Interp2D whose x and y axes are views into one allocation starting at the same element (column/row of one table; forward/backward slice of one vector; the same view twice), 2..6 points, every query pair over the knots and interior points (diagonal included), batch queries that are the axes themselves or views of one array, and Interp1D whose axis is a column of its data - each compared bit for bit with the same call on owned copies.".into(),
         bounds: format!("{njobs} instantiation jobs; tier {}", ctx.tier.name()),
         assumptions: vec!["all layouts are realised as owned arrays / mutable views with unusual strides; ownership kinds (view, shared) are covered by C19".into()],
         extra: vec![],
